@@ -25,6 +25,7 @@ Whatever is not recognised becomes an explicit `unknown` (apply) or puts the
 function on the `uncovered` list (traces); it is never silently dropped.
 """
 import ast
+import builtins
 import os
 import re
 
@@ -280,9 +281,10 @@ def functions(lls):
             k += 1
             continue
         f = None
-        if re.match(r'^(def|cpdef|cdef)\s', t) and m.rstrip().endswith(':') and '(' in m \
+        inline = None
+        if re.match(r'^(def|cpdef|cdef)\s', t) and '(' in m \
                 and not re.match(r'^cdef\s+(class|extern|enum|struct|union)\b', t):
-            # header: keyword [type] name ( params ) trailer :
+            # header: keyword [type] name ( params ) trailer : [statement on the same line]
             op = m.index('(')
             depth = 0
             cl = None
@@ -294,7 +296,26 @@ def functions(lls):
                     if depth == 0:
                         cl = j
                         break
-            hm = _HEAD.match(t[:op + 1])
+            colon = None
+            if cl is not None:
+                depth = 0
+                for j in range(cl + 1, len(m)):
+                    if m[j] in _OPEN:
+                        depth += 1
+                    elif m[j] in _CLOSE:
+                        depth -= 1
+                    elif m[j] == ':' and depth == 0:
+                        colon = j
+                        break
+                    elif m[j] == '=' and depth == 0:
+                        break       # `cdef T x = f(...)`: a declaration, not a header
+            hm = _HEAD.match(t[:op + 1]) if colon is not None else None
+            if hm and cl is not None and t[colon + 1:].strip():
+                # `def f(u): Cudd_Ref(u.node)`: the body is the rest of the line
+                rest = t[colon + 1:].strip()
+                inline = LLine(ll.lineno, ll.indent + 4, rest, _mask_of(rest), ll.end)
+                t = t[:colon + 1]
+                m = m[:colon + 1]
             if hm and cl is not None:
                 f = Func()
                 f.kind = hm.group(1)
@@ -302,7 +323,7 @@ def functions(lls):
                 f.name = hm.group(3)
                 f.lineno = ll.lineno
                 f.params = [_parse_param(p) for p in _split_top(t[op + 1:cl], m[op + 1:cl])]
-                f.trailer = t[cl + 1:].rstrip(':').strip()
+                f.trailer = t[cl + 1:].rstrip().rstrip(':').strip()
                 f.decorators = decorators
                 names = [s[2] for s in scopes]
                 f.cls = next((s[2] for s in scopes if s[1] == 'class'), None)
@@ -315,7 +336,7 @@ def functions(lls):
         j = k + 1
         while j < n and lls[j].indent > ll.indent:
             j += 1
-        f.body = lls[k + 1:j]
+        f.body = ([inline] if inline is not None else []) + lls[k + 1:j]
         f.end = lls[j - 1].end if j > k + 1 else ll.end
         funcs.append(f)
         # nested functions are rare (one `def mapper` in cudd.dump); they stay part of the body
@@ -432,6 +453,25 @@ def node_returning(lls, funcs):
         if f.kind == 'cdef' and f.ret in ('DdRef', 'DdNode *'):
             local.add(f.name)
     return ext, local
+
+
+_DEF_TOKEN = re.compile(r'^(?:async\s+)?(?:def|cpdef)\s+[A-Za-z_]')
+_CDEF_FN_TOKEN = re.compile(r'^cdef\s+(?!class\b|extern\b|enum\b|struct\b|union\b|cppclass\b|fused\b)[^=(]*\(')
+
+
+def count_def_tokens(lls):
+    """Number of logical lines that START a function definition, counted from the keyword alone
+    (`def` / `cpdef` / `async def`; `cdef … (` with no `=` before the parenthesis), whatever the rest
+    of the line looks like.  Independent of `functions()`: compared with what that found
+    (`allFunctionsSeen`)."""
+    n = 0
+    for ll in lls:
+        m = ll.mask
+        if _DEF_TOKEN.match(m):
+            n += 1
+        elif _CDEF_FN_TOKEN.match(m) and not re.match(r'^cdef\s+[^(]*\(\s*\*', m):
+            n += 1
+    return n
 
 
 def read_module(repo, fname):
@@ -1106,6 +1146,8 @@ PYCONT_CALLS = ('dict',)
 # fields of CUDD's `DdNode` that hold a node pointer without a reference (collision chain of
 # the unique table, used as a traversal mark by `_support` / `_clear_markers`)
 NODE_LINK_FIELDS = ('next',)
+# the counter of a CUDD `Function`: the number of library references the handle owns
+REF_FIELD = '_ref'
 
 
 class Uncovered(Exception):
@@ -1159,9 +1201,17 @@ def _has_relevant_call(node, tr):
         if isinstance(n, ast.Call):
             fn = _dotted(n.func)
             if fn is None:
-                continue
+                if not isinstance(n.func, ast.Attribute):
+                    return True      # `[Cudd_Ref][0](r)`, `getattr(self, 'incref')(f)`
+                fn = '?.' + n.func.attr
             c = tr.cname(fn)
             if c in tr.node_fns or c in REF_FNS or c in DEREF_FNS or fn == 'wrap':
+                return True
+            # the wrappers' own reference methods, and callees the reader has to look at: a local
+            # name (an alias), a name that is neither declared nor defined nor a builtin
+            if fn.rsplit('.', 1)[-1] in REF_METHODS + DEREF_METHODS:
+                return True
+            if '.' not in fn and (fn in tr.locals or (fn not in tr.known_callees and not hasattr(builtins, fn))):
                 return True
     return False
 
@@ -1178,6 +1228,9 @@ class Tracer:
         self.has_wrap_fn = has_wrap_fn
         self.params = [p[0] for p in func.params]
         self.cont_params = {p[0] for p in func.params if p[1] in CONT_PARAM_TYPES}
+        self.role = role_of(func)
+        self.known_callees = mod.get('known_callees', set())
+        self.always_raise = mod.get('always_raise', set())
         self.returns_node = func.kind == 'cdef' and func.ret in ('DdRef', 'DdNode *')
         self.locals = set()
         for st in stmts:
@@ -1226,6 +1279,12 @@ class Tracer:
             return [p]
         if isinstance(st, ast.Expr):
             self.ev(st.value, p)
+            if isinstance(st.value, ast.Call):
+                fn = _dotted(st.value.func) or ''
+                if fn.rsplit('.', 1)[-1] in self.always_raise:
+                    # `_utils._raise_runtimerror_about_ref_count(…)`: every path of the helper raises
+                    p.events.append(('raise', 'RuntimeError'))
+                    p.done = True
             return [p]
         if isinstance(st, ast.AnnAssign):
             if st.value is None:
@@ -1234,12 +1293,32 @@ class Tracer:
             self.bind(st.target, v, p, st)
             return [p]
         if isinstance(st, ast.Assign):
+            if any(isinstance(t, ast.Attribute) and t.attr == REF_FIELD for t in st.targets):
+                t = st.targets[0]
+                k = self.int_const(st.value)
+                if len(st.targets) != 1 or k is None or not isinstance(t.value, ast.Name):
+                    raise Uncovered(f'line {st.lineno}: assignment to `{REF_FIELD}` that is not `h.{REF_FIELD} = k`')
+                p.events.append(('fieldSet', t.value.id, k))
+                return [p]
             v = self.ev(st.value, p)
             for t in st.targets:
                 self.bind(t, v, p, st)
             return [p]
         if isinstance(st, ast.AugAssign):
             self.ev(st.value, p)
+            t = st.target
+            if isinstance(t, ast.Attribute) and t.attr == REF_FIELD:
+                k = self.int_const(st.value)
+                if k is None or not isinstance(st.op, (ast.Add, ast.Sub)) or not isinstance(t.value, ast.Name):
+                    raise Uncovered(f'line {st.lineno}: update of `{REF_FIELD}` that is not `h.{REF_FIELD} += k` / `-= k`')
+                p.events.append(('fieldAdd', t.value.id, k if isinstance(st.op, ast.Add) else -k))
+                return [p]
+            for n in ast.walk(t):
+                if isinstance(n, ast.Name):
+                    # `k += 1`: whatever was known about `k` (and the value bound to it) is gone
+                    if isinstance(t, ast.Name):
+                        p.env[n.id] = ('other',)
+                    self.forget(n.id, p)
             return [p]
         if isinstance(st, ast.Return):
             if st.value is None:
@@ -1273,7 +1352,11 @@ class Tracer:
             return [p]
         if isinstance(st, ast.Assert):
             self.ev(st.test, p)
+            ft = self.field_test(st.test)
             q = p.copy()
+            if ft is not None:
+                p.events.append(('fieldTest',) + ft + (True,))
+                q.events.append(('fieldTest',) + ft + (False,))
             q.events.append(('raise', 'AssertionError'))
             q.done = True
             return [p, q]
@@ -1286,6 +1369,8 @@ class Tracer:
         if isinstance(st, ast.With):
             for it in st.items:
                 self.ev(it.context_expr, p)
+                if it.optional_vars is not None:
+                    self.bind_opaque(it.optional_vars, p)
             return self.block(st.body, [p])
         if isinstance(st, ast.Break):
             p.loopctl = 'break'
@@ -1294,6 +1379,10 @@ class Tracer:
             p.loopctl = 'continue'
             return [p]
         if isinstance(st, ast.Delete):
+            for t in st.targets:
+                for n in ast.walk(t):
+                    if isinstance(n, ast.Name):
+                        self.forget(n.id, p)
             return [p]
         if isinstance(st, (ast.FunctionDef, ast.ClassDef)):
             if _has_relevant_call(st, self):
@@ -1374,7 +1463,10 @@ class Tracer:
         else:
             self.ev(st.test, p)
         dead = self.refcount_test(st.test, p) if nt is None else None
-        guard = _src(st.test) if '._ref' in _src(st.test) else None
+        ft = self.field_test(st.test)
+        guard = None
+        if self.role != 'plain' and isinstance(st.test, ast.Name) and st.test.id in self.params:
+            guard = st.test.id          # `if _direct:` in `decref`
         pure = self.pure_test(st.test) if nt is None else None
         ckey = _src(st.test) if pure is not None else None
         if ckey is not None and ckey in p.conds:
@@ -1393,10 +1485,35 @@ class Tracer:
                     q.events.append(('isNull', nt[0]))
             if guard is not None:
                 q.events.append(('guard', guard, branch))
+            if ft is not None:
+                q.events.append(('fieldTest',) + ft + (branch,))
             if dead is not None and branch:
                 q.events.append(('refNonPos', dead))
             out.extend(self.block(body, [q]))
         return out
+
+    @staticmethod
+    def int_const(e):
+        if isinstance(e, ast.Constant) and isinstance(e.value, int) and not isinstance(e.value, bool):
+            return e.value
+        if (isinstance(e, ast.UnaryOp) and isinstance(e.op, ast.USub) and isinstance(e.operand, ast.Constant)
+                and isinstance(e.operand.value, int)):
+            return -e.operand.value
+        return None
+
+    def field_test(self, test):
+        """(handle, relation, k) when `test` is `h._ref <rel> k`; a test that mentions the counter in any
+        other way is not understood."""
+        mentions = any(isinstance(n, ast.Attribute) and n.attr == REF_FIELD for n in ast.walk(test))
+        if not mentions:
+            return None
+        rels = {ast.Eq: '==', ast.NotEq: '!=', ast.Lt: '<', ast.LtE: '<=', ast.Gt: '>', ast.GtE: '>='}
+        if (isinstance(test, ast.Compare) and len(test.ops) == 1 and type(test.ops[0]) in rels
+                and isinstance(test.left, ast.Attribute) and test.left.attr == REF_FIELD
+                and isinstance(test.left.value, ast.Name)
+                and self.int_const(test.comparators[0]) is not None):
+            return (test.left.value.id, rels[type(test.ops[0])], self.int_const(test.comparators[0]))
+        raise Uncovered(f'line {test.lineno}: a test on `{REF_FIELD}` that is not `h.{REF_FIELD} <rel> k`')
 
     def refcount_test(self, test, p):
         """Node id when `test` is `x.ref <= 0` for a node `x` (or a handle `g` whose `g.node` is
@@ -1663,6 +1780,8 @@ class Tracer:
                 return p.env[key][1]
             x = p.new(v[1])
             p.events.append(('param', x, v[1]))
+            if self.role != 'plain' and v[1].endswith('.node') and '.' not in v[1][:-5]:
+                p.events.append(('handleNode', x, v[1][:-5]))
             p.env[key] = ('node', x, 'param')
             return x
         return None
@@ -1774,6 +1893,10 @@ class Tracer:
                 p.events.append(('load', x, c))
                 return ('node', x, 'load')
             return ('other',)
+        if isinstance(e, ast.NamedExpr):
+            v = self.ev(e.value, p)
+            self.bind(e.target, v, p, e)        # `(k := k + 1)` rebinds `k`
+            return v
         if isinstance(e, ast.Dict) and not e.keys:
             p.ntok += 1
             return ('pycont', 'dict', e.lineno, p.ntok)
@@ -1797,15 +1920,28 @@ class Tracer:
 
     def call(self, c, p, nodes_array=False):
         fn = _dotted(c.func)
+        if fn is None and isinstance(c.func, ast.Attribute):
+            # `set(cube).issubset(…)`, `f().incref(u)`: a method of a computed object; the method name
+            # is what matters below
+            fn = '?.' + c.func.attr
         if fn is None:
+            # the callee is computed (`getattr(self, 'incref')(f)`, `[Cudd_Ref][0](r)`)
             self.ev(c.func, p)
-            for a in c.args:
-                self.ev(a, p)
-            for k in c.keywords:
-                self.ev(k.value, p)
+            vals = [self.ev(a, p) for a in c.args] + [self.ev(k.value, p) for k in c.keywords]
+            if any(self.is_ref_carrier(v) for v in vals):
+                raise Uncovered(f'line {c.lineno}: a node or a handle is passed to a computed callee '
+                                f'`{_src(c.func)}`')
             return ('other',)
         cn = self.cname(fn)
         last = fn.rsplit('.', 1)[-1]
+        if '.' not in fn and (fn in self.locals or fn in p.env):
+            # `keep = Cudd_Ref; keep(r)`: the name is a variable of this function, what it calls is
+            # not known to the reader
+            vals = [self.ev(a, p) for a in c.args] + [self.ev(k.value, p) for k in c.keywords]
+            if any(self.is_ref_carrier(v) for v in vals):
+                raise Uncovered(f'line {c.lineno}: a node or a handle is passed to `{fn}`, '
+                                'a local name (an alias of some function)')
+            return ('other',)
         # arrays and Python containers
         if cn in ALLOC_FNS and not nodes_array:
             # an array of something else (`int *`, `char **`): not followed
@@ -1838,17 +1974,29 @@ class Tracer:
                     raise Uncovered(f'line {c.lineno}: {cn} applied to a cast expression '
                                     '(a reference kept in a container)')
             vals = [self.ev(a, p) for a in c.args]
-            nodes = [(v, a) for v, a in zip(vals, c.args) if v[0] in ('node', 'param')]
-            # `decref(u)` on a handle: `self.decref(u)`, not modelled as a C event
-            if not nodes:
-                if cn in REF_FNS or cn in DEREF_FNS:
-                    raise Uncovered(f'line {c.lineno}: {cn} applied to an untracked expression')
-                return ('other',)
-            v, a = nodes[-1] if cn in DEREF_FNS or cn in REF_FNS else nodes[0]
-            if v[0] == 'param' and not (v[1].endswith('.node') or v[1] in self.params):
-                return ('other',)
-            x = self.as_node(v, a, p)
+            for k in c.keywords:
+                self.ev(k.value, p)
             kind = 'ref' if (cn in REF_FNS or last in REF_METHODS) else 'deref'
+            if not (cn in REF_FNS or cn in DEREF_FNS):
+                # the wrappers' own `incref(u)` / `decref(u)` / `_incref(u.node)` / `_decref(u.node)`:
+                # the first argument is the handle (its node) or the node
+                v, a = vals[0], c.args[0]
+                if v[0] == 'handle' and v[1] is not None:
+                    x = v[1]
+                elif v[0] == 'node' or (v[0] == 'param' and (v[1].endswith('.node') or v[1] in self.params)):
+                    x = self.as_node(v, a, p)
+                else:
+                    raise Uncovered(f'line {c.lineno}: {last} applied to a value that is not followed '
+                                    f'(`{_src(a)}`)')
+                p.events.append((kind, x, last))
+                return ('other',)
+            nodes = [(v, a) for v, a in zip(vals, c.args) if v[0] in ('node', 'param')]
+            if not nodes:
+                raise Uncovered(f'line {c.lineno}: {cn} applied to an untracked expression')
+            v, a = nodes[-1]
+            if v[0] == 'param' and not (v[1].endswith('.node') or v[1] in self.params):
+                raise Uncovered(f'line {c.lineno}: {cn} applied to an untracked expression')
+            x = self.as_node(v, a, p)
             p.events.append((kind, x, cn if (cn in REF_FNS or cn in DEREF_FNS) else last))
             return ('other',)
         if cn not in REF_FNS + DEREF_FNS and cn in self.declared_c and 'ref' in cn.lower() \
@@ -1890,15 +2038,35 @@ class Tracer:
         # anything else: evaluate the arguments for nested events
         if isinstance(c.func, ast.Attribute):
             self.ev(c.func.value, p)
-        for a in c.args:
+            if isinstance(c.func.value, ast.Name):
+                self.forget(c.func.value.id, p)     # `d.clear()` may change what `k in d` said
+        raw = False
+        for a in list(c.args) + [k.value for k in c.keywords]:
             v = self.ev(a, p)
             if v[0] == 'cont' and v[2] == 'nodes':
                 p.events.append(('passC', v[1], cn))
             elif v[0] == 'pycont' and v in p.env:
                 p.events.append(('passC', p.env[v][1], cn))
-        for k in c.keywords:
-            self.ev(k.value, p)
+            if v[0] == 'node' or (v[0] == 'param' and (v[1].endswith('.node') or self.param_is_node(v[1]))):
+                raw = True
+            if isinstance(a, ast.Name):
+                self.forget(a.id, p)                # a mutable argument may be changed by the callee
+        if raw and last not in self.known_callees:
+            # a raw node goes to something that is neither declared in an `extern` block / `.pxd` nor
+            # defined in this module: it may take or give back a reference
+            raise Uncovered(f'line {c.lineno}: a node is passed to `{fn}`, which is neither declared nor '
+                            'defined in the module')
         return ('other',)
+
+    def is_ref_carrier(self, v):
+        """The value is a node, a handle, or a parameter declared as one of them."""
+        if v[0] in ('node', 'handle'):
+            return True
+        if v[0] == 'param':
+            if v[1].endswith('.node') or self.param_is_node(v[1]):
+                return True
+            return any(n == v[1] and t in ('Function', '') for n, t, _d in self.func.params)
+        return False
 
     def param_is_node(self, name):
         for n, t, _d in self.func.params:
@@ -1938,8 +2106,53 @@ def declared_c_functions(lls):
     return out
 
 
+def extern_function_names(lls):
+    """Every name declared with a parameter list inside a `cdef extern from …:` block."""
+    out = set()
+    ext = None
+    for ll in lls:
+        if ext is not None and ll.indent <= ext:
+            ext = None
+        if re.match(r'^cdef\s+extern\s+from\b', ll.text):
+            ext = ll.indent
+            continue
+        if ext is not None:
+            m = re.search(r'\b([A-Za-z_]\w*)\s*\(', ll.mask)
+            if m:
+                out.add(m.group(1))
+    return out
+
+
+def always_raising_helpers(repo):
+    """Functions of `dd/_utils.py` named `_raise…` whose body ends in an unconditional `raise`."""
+    out = set()
+    try:
+        tree = ast.parse(open(os.path.join(repo, 'dd', '_utils.py')).read())
+    except (OSError, SyntaxError):
+        return out
+    for n in tree.body:
+        if isinstance(n, ast.FunctionDef) and n.name.startswith('_raise') and n.body \
+                and isinstance(n.body[-1], ast.Raise):
+            out.add(n.name)
+    return out
+
+
+# Python builtins that may be given a raw node (an integer in `buddy.pyx`) and keep nothing
+BUILTIN_CALLEES = {'int', 'str', 'repr', 'bool', 'print', 'isinstance', 'hash', 'id', 'format', 'abs', 'sizeof'}
+
+
+def known_callees(repo, mod):
+    _t, _f, _c, _p, decl = next(b for b in BACKENDS if b[0] == mod['tag'])
+    names = extern_function_names(mod['lls']) | {f.name for f in mod['funcs']} | BUILTIN_CALLEES
+    if decl:
+        names |= extern_function_names(logical_lines(open(os.path.join(repo, 'dd', decl)).read()))
+    return names
+
+
 def ref_traces(repo, mod):
     """(methods, uncovered): methods = [dict(name, line, role, returns_node, paths, names)]."""
+    mod['known_callees'] = known_callees(repo, mod)
+    mod['always_raise'] = always_raising_helpers(repo)
     funcs = mod['funcs']
     has_wrap = any(f.qual == 'wrap' for f in funcs)
     decl = set()
@@ -1993,6 +2206,17 @@ def ref_traces(repo, mod):
             paths.append((list(p.events), dict(p.names)))
         methods.append(dict(name=f.qual, line=f.lineno, role=role,
                             returns_node=tr.returns_node, paths=paths))
+    # every definition is accounted for: the keyword count of the file against what `functions()`
+    # found (plus the definitions nested in bodies, which the tracer meets as statements)
+    nested = 0
+    for f in funcs:
+        stmts, _err = body_ast(f)
+        for st in stmts or []:
+            nested += sum(1 for n in ast.walk(st) if isinstance(n, (ast.FunctionDef, ast.AsyncFunctionDef)))
+    mod['def_tokens'] = count_def_tokens(mod['lls'])
+    mod['nested_defs'] = nested
+    mod['has_ref_field'] = any(re.match(r'^cdef\s+(?:public\s+|readonly\s+)?int\s+' + REF_FIELD + r'\b', ll.text)
+                               for ll in mod['lls'])
     return methods, uncovered, n_plain
 
 
@@ -2024,6 +2248,12 @@ def lean_event(ev):
         return f'.refNonPos {ev[1]}'
     if k == 'setField':
         return f'.setField {ev[1]} {_ls(ev[2])} {ev[3]}'
+    if k in ('fieldAdd', 'fieldSet'):
+        return f'.{k} {_ls(ev[1])} ({ev[2]})'
+    if k == 'fieldTest':
+        return f'.fieldTest {_ls(ev[1])} {_ls(ev[2])} ({ev[3]}) {"true" if ev[4] else "false"}'
+    if k == 'handleNode':
+        return f'.handleNode {ev[1]} {_ls(ev[2])}'
     raise ValueError(ev)
 
 
@@ -2055,6 +2285,9 @@ def extract_all(repo):
             if not why.startswith('test helper')]
         data['irrelevant'][tag] = n
         data['nfuncs'][tag] = len(mod['funcs'])
+        data.setdefault('def_tokens', {})[tag] = mod['def_tokens']
+        data.setdefault('nested_defs', {})[tag] = mod['nested_defs']
+        data.setdefault('has_ref_field', {})[tag] = mod['has_ref_field']
         data['local'][tag] = sorted(mod['local'])
     return data
 
@@ -2099,6 +2332,16 @@ def lean_ctables(data):
     L.append('def cLocalProducers : List (Backend × List String) := [' + ', '.join(
         f'(.{tag}, [' + ', '.join(_ls(x) for x in xs) + '])' for tag, xs in data['local'].items()) + ']')
     L.append('def cRefTraces : List CMethod := ' + ' ++ '.join(f'cTraces_{tag}' for tag in data['traces']))
+    L.append('/-- back ends whose `Function` declares the counter `cdef public int _ref` -/')
+    L.append('def cRefFieldBackends : List Backend := [' + ', '.join(
+        '.' + tag for tag, b in data['has_ref_field'].items() if b) + ']')
+    L.append('/-- per file: (definition keywords `def`/`cpdef`/`cdef …(` counted on the logical lines, '
+             'functions found by the reader at class / module level, definitions nested in bodies, '
+             'of the former: followed, not followed, without any node event) -/')
+    L.append('def cFunctionCount : List (Backend × Nat × Nat × Nat × Nat × Nat × Nat) := [' + ', '.join(
+        f'(.{tag}, {data["def_tokens"][tag]}, {data["nfuncs"][tag]}, {data["nested_defs"][tag]}, '
+        f'{len(data["traces"][tag])}, {len(data["uncovered"][tag])}, {data["irrelevant"][tag]})'
+        for tag in data['traces']) + ']')
     L.append('/-- functions with node events that the reader could not follow (NOT covered by any theorem) -/')
     unc = []
     for tag, us in data['uncovered'].items():
@@ -2135,6 +2378,8 @@ def lean_ctables_stub(err):
          'def cQuantRolesPy : List (Backend × String × Bool × COperand × COperand) := []',
          'def cLocalProducers : List (Backend × List String) := []',
          'def cRefTraces : List CMethod := []',
+         'def cRefFieldBackends : List Backend := []',
+         'def cFunctionCount : List (Backend × Nat × Nat × Nat × Nat × Nat × Nat) := []',
          'def cUncovered : List CUncovered := []',
          'def cUncoveredText : List (Backend × String × String) := []',
          'def cCacheTags : List (Backend × String × List String × List String) := []',
